@@ -44,6 +44,9 @@ def check(run):
         run.rule(r, t)
     for cfg in configs(run, extra_quick=('nd',)):
         F = run.facts(cfg)
+        # helpers this property stands on (rule sets owned by other properties, see common.deps)
+        from common import deps as _deps
+        _deps(run, F, 'accessors')
         claimed = set()
         n = drivers.check_drivers(run, F, rules=('IDX.driver', 'IDX.other', 'DRV.cover',
                                                  'DRV.early', 'DRV.iter', 'SEQ.len'))
@@ -104,6 +107,9 @@ def check(run):
                 run.ob('IDX.unsafe-only', fn, 'unchecked accessor user', key in claimed, fn.loc(),
                        'covered' if key in claimed else
                        'function calls an unchecked accessor but no rule covers it')
+    # every container the generic code can be instantiated with hands out its elements in logical order
+    from common import dep_backends as _dep_backends
+    _dep_backends(run)
     return run.finish(
         'other',
         'All call sites of the unchecked accessors (uget / uslice / uset / uget_mut / '
